@@ -340,16 +340,17 @@ def gen_latent(rng, fam, mode="rand"):
     c = {"kind": "latent", "fam": fam, "data": d, "s": s, "perm": perm, "a": a, "xr": xr, "xi": xi, "eval": gen_eval(rng, nlatent_of(fam, d))}
     return c
 
-def gen_guard(rng, fam):
+def gen_guard(rng, fam, which=None):
     """real vectors whose sum is at / inside / just outside the 1e-10 guard of the source"""
     c = gen_latent(rng, fam)
     n = _ncand(fam, c["data"])
-    which = rng.choice(["at", "inside", "outside", "tiny"])
+    which = which or rng.choice(["at", "inside", "outside", "tiny"])
     base = {"at": EPS, "inside": EPS * (1 - 2 ** -50), "outside": EPS * 1.5, "tiny": 2.0 ** -60}[which]
     xr = [0.0] * n
     xr[rng.randrange(n)] = base
     c["xr"] = xr
-    c["a"] = rng.choice([2.0, 0.5, 1024.0, 2.0 ** 20])
+    # "at": the boundary value itself must be normalised (>=); scale up so that the rescaled vector is outside as well
+    c["a"] = rng.choice([2.0, 1024.0]) if which == "at" else rng.choice([2.0, 0.5, 1024.0, 2.0 ** 20])
     c["guard"] = which
     return c
 
@@ -973,8 +974,12 @@ def classify(case, out, clauses):
             return None
         if fam in GUARDED:
             tot = sum(case["xr"]); a = case["a"]
-            if (0 < tot < EPS or 0 < a * tot < EPS) and all(c.startswith("xr latent vector != definition on x/sum(x)") or c.startswith("latent vector changes under positive rescaling") for c in clauses):
-                return "C05-guard-scale"
+            ins, ins_a = 0 < tot < EPS, 0 < a * tot < EPS
+            def explained(c):
+                if c.startswith("xr latent vector != definition on x/sum(x)"): return ins            # x itself is inside the guard
+                if c.startswith("latent vector changes under positive rescaling"): return ins or ins_a
+                return False
+            if all(explained(c) for c in clauses): return "C05-guard-scale"
         return None
     if k == "factory":
         w, A = case["which"], case["args"]
@@ -1015,8 +1020,8 @@ def gen_cases(rng, tier):
             for _ in range(14 if q else 80):
                 cases.append(gen_latent(rng, fam, "badn"))
         if fam not in SUBSET_ONLY:
-            for _ in range(4 if q else 30):
-                cases.append(gen_guard(rng, fam))
+            for i in range(4 if q else 32):
+                cases.append(gen_guard(rng, fam, ["at", "inside", "outside", "tiny"][i % 4]))
         cases.append({"kind": "nlatent", "case": gen_latent(rng, fam)})
     for w in FACTORIES:
         for _ in range(5 if q else 40):
